@@ -118,13 +118,13 @@ class Interp:
             setattr(b, sname, self.bundles[sub](flipped=bool(flipped)))
         self.bundles[bid] = b
 
-    def op_ext(self, xid, name, ports):
+    def op_ext(self, xid, name, ports, domain="verif"):
         h = self.h
         plist = [
             h.Signal(name=p, width=w, vis=h.signal.Visibility.PORT, direction=h.signal.PortDir[DIRS[d]])
             for p, w, d in ports
         ]
-        self.exts[xid] = h.ExternalModule(name=name, port_list=plist, paramtype=self.XP, domain="verif")
+        self.exts[xid] = h.ExternalModule(name=name, port_list=plist, paramtype=self.XP, domain=domain)
 
     def op_module(self, mid, name, style):
         env = ModEnv(mid, name, style)
